@@ -1,7 +1,7 @@
 (* C09 model, layer 2: the class readers, mirrored statement by statement.
      locatorIdentify                       /repo/src/Db/PtrGeos.cpp:176
      Db::setLocatorByUID                   /repo/src/Db/Db.cpp:1136
-     Db::setNameByUID / correctNewNameForDuplicates     Db.cpp:3111, /repo/src/Basic/String.cpp:182
+     correctNamesForDuplicates             /repo/src/Basic/String.cpp:160
      Db::resetDims, Db::_loadData          Db.cpp:512, 4624
      Db::_deserialize                      Db.cpp:4569
      DbGrid::_deserialize                  /repo/src/Db/DbGrid.cpp:740   (Grid::resetFromVector /repo/src/Basic/Grid.cpp:131)
@@ -13,7 +13,7 @@
      X::createFromNF                       (open, check the class tag, deserialize, null on failure)
    Sites (the number carried by OOB / Throw / Hang):
      1 _recordRead loop; 11 Db locators record; 12 Db names record; 13 Db allvalues; 14 Db rows (in place);
-     15 Db::resetDims; 16 Db::setLocatorByUID resize; 17 Db::_loadData; 18 correctNewNameForDuplicates;
+     15 Db::resetDims; 16 Db::setLocatorByUID resize; 17 Db::_loadData; 18 correctNamesForDuplicates;
      21 DbGrid header vectors; 22 DbGrid header loop; 23 Rotation matrices; 31 Table::reset; 32 Table loop;
      41 PolyLine2D vectors; 42 PolyLine2D loop / record; 43 Polygons loop; 44 Faults loop.
    No proofs here. *)
@@ -118,21 +118,21 @@ Definition set_locator (E : env) (nuid : Z) (locs : list (list Z)) (iuid typ idx
       else Ret (upd_nth locs1 (Z.to_nat typ) (set_at p (Z.to_nat idx') iuid)) m
   else Ret locs m.
 
-(* correctNewNameForDuplicates(list, rank): append ".1" while another entry carries the same name *)
-Fixpoint other_equal (l : list (list Z)) (i rank : nat) (nm : list Z) : bool :=
-  match l with
-  | [] => false
-  | x :: r => (negb (Nat.eqb i rank) && bytes_eqb x nm) || other_equal r (S i) rank nm
-  end.
-Fixpoint dedup_name (fuel : nat) (l : list (list Z)) (rank : nat) : option (list (list Z)) :=
+(* correctNamesForDuplicates(list) (String.cpp:160): from the second entry on, append ".1" to an entry as long as it
+   equals one of the entries before it. [prev] holds the entries already settled, last first. *)
+Fixpoint dedup_prev (fuel : nat) (prev : list (list Z)) (nm : list Z) : option (list Z) :=
   match fuel with
   | O => None
-  | S f =>
-      let nm := nth rank l [] in
-      if other_equal l 0 rank nm then dedup_name f (upd_nth l rank (nm ++ [46; 49])) rank else Some l
+  | S f => if existsb (fun x => bytes_eqb x nm) prev then dedup_prev f prev (nm ++ [46; 49]) else Some nm
   end.
-Definition set_name (l : list (list Z)) (rank : nat) (nm : list Z) : option (list (list Z)) :=
-  dedup_name (S (length l)) (upd_nth l rank nm) rank.
+Fixpoint correct_names (prev : list (list Z)) (l : list (list Z)) : option (list (list Z)) :=
+  match l with
+  | [] => Some (frev prev)
+  | nm :: r => match dedup_prev (S (length prev)) prev nm with
+               | None => None
+               | Some nm' => correct_names (nm' :: prev) r
+               end
+  end.
 
 (* generateMultipleNames("New", n): New.1 ... New.n *)
 Fixpoint dec_digits (fuel : nat) (z : Z) (acc : list Z) : list Z :=
@@ -143,18 +143,13 @@ Fixpoint dec_digits (fuel : nat) (z : Z) (acc : list Z) : list Z :=
 Definition new_name (i : Z) : list Z := [78; 101; 119; 46] ++ dec_digits 20 i [].
 Definition zseq (n : Z) : list Z := map Z.of_nat (seq 0 (Z.to_nat n)).
 
-(* the names / locators loop at the end of Db::_deserialize *)
-Fixpoint apply_cols (E : env) (ncol : Z) (i : Z) (names : list (list Z)) (tab : list (Z * Z))
-                    (cur_names : list (list Z)) (locs : list (list Z)) (m : mon) : res (list (list Z) * list (list Z)) :=
-  match names, tab with
-  | nm :: names', (typ, idx) :: tab' =>
-      match set_name cur_names (Z.to_nat i) nm with
-      | None => Bad (Hang 18)
-      | Some cur' =>
-          do locs', m' <- set_locator E ncol locs i typ idx m;
-          apply_cols E ncol (i + 1) names' tab' cur' locs' m'
-      end
-  | _, _ => Ret (cur_names, locs) m
+(* the locators loop at the end of Db::_deserialize: setLocatorByUID(i, tabloc[i], tabnum[i]) *)
+Fixpoint apply_locs (E : env) (ncol : Z) (i : Z) (tab : list (Z * Z)) (locs : list (list Z)) (m : mon) : res (list (list Z)) :=
+  match tab with
+  | (typ, idx) :: tab' =>
+      do locs', m' <- set_locator E ncol locs i typ idx m;
+      apply_locs E ncol (i + 1) tab' locs' m'
+  | [] => Ret locs m
   end.
 
 Fixpoint decode_locs (l : list (list Z)) : option (list (Z * Z)) :=
@@ -238,10 +233,15 @@ Definition db_deserialize (E : env) (gt : option (Z * Z)) (m : mon) : res (optio
               if (0 <? ncol) && (0 <? total) && (0 <? nech') && negb (total' =? nech' * ncol) then Bad (OOB 17) else
               let arr := if (0 <? ncol) && (0 <? total) && (0 <? nech') then load_data ncol nech' (map value_double ws)
                          else if 0 <? total' then repeat zero (Z.to_nat total') else [] in
-              do nl, m9 <- apply_cols E ncol 0 names tab (map new_name (map (Z.add 1) (zseq ncol))) no_loc m8;
+              (* _colNames[i] = names[i] for every column, then correctNamesForDuplicates(_colNames) *)
+              match correct_names [] names with
+              | None => Bad (Hang 18)
+              | Some nms =>
+              do locs9, m9 <- apply_locs E ncol 0 tab no_loc m8;
               (* proposed fix C09_5: every column finds itself at its declared rank and no role slot is a filler *)
-              if fix_rank (e_cfg E) && negb (post_ok tab (snd nl)) then Ret None m9 else
-              Ret (Some (mkDb ncol nech' (fst nl) (zseq ncol) (snd nl) arr)) m9
+              if fix_rank (e_cfg E) && negb (post_ok tab locs9) then Ret None m9 else
+              Ret (Some (mkDb ncol nech' nms (zseq ncol) locs9 arr)) m9
+              end
           end
       end
   | _, _ => Ret None m5
